@@ -20,6 +20,7 @@ TEXT = {
     "plain": ["hello", "MiXed123", "a-b_c.d~e"],
     "empty": [""],
     "reserved": ["a/b?c#d&e=f+g%20h;i:j@k,l$m", "100%", "a b+c", "..", ".", "//", "?x=1&y=2#frag", "%2F%00", "[]{}|\\^`\"<>"],
+    "escaped": ["%41", "a%2Fb", "%2541", "%26x%3D1", "a+b%2B", "%00", "%C3%A9", "%zz%", "&amp;%3B"],
     "unicode": ["héllo ☃", "日本語", "\U0001f600 emoji", "ÿ", "á"],
     "long": ["x" * 10000, "ab-" * 4000],
     "space_edges": [" lead", "trail ", " both "],
